@@ -3,6 +3,7 @@
  * whole executor is one translation unit. */
 #include "exec_common.h"
 #include "ops_c19.c"
+#include "ops_c20.c"
 
 int main(void)
 {
@@ -13,6 +14,7 @@ int main(void)
     int done = 0;
     if (t.n == 0) { printf("R skip\n"); continue; }
     if (!done) done = dispatch_c19(&t);
+    if (!done) done = dispatch_c20(&t);
     if (!done) printf("R skip\n");
     fflush(stdout);
   }
